@@ -34,6 +34,7 @@ type Case struct {
 	After   int          `json:"after"`   // calls made after the failure
 	Holds   []sched.Hold `json:"holds,omitempty"`
 	Late    bool         `json:"late,omitempty"` // one more call is started while the failure is in progress (interleaving table)
+	Joined  bool         `json:"joined,omitempty"` // a fault frame is written together with the delivered replies: they reach the client in one Read (per piece of Chunk bytes)
 	WBlock  bool         `json:"wblock,omitempty"` // (with Late) the writer goroutine is inside a Write of the late call that the peer does not drain when the failure happens
 	// entry storm (TestPropEntryStorm)
 	Callers int    `json:"callers,omitempty"` // goroutines entering Rpc when the connection fails
@@ -93,6 +94,12 @@ func hang(format string, a ...interface{}) error {
 	return &hangErr{fmt.Sprintf(format, a...), hx.BlockedInGo9p()}
 }
 
+// hungErr is a violation by a hang (it costs the deadline every time it is
+// reproduced, and what was stuck stays stuck in the process: not shrunk).
+type hungErr struct{ msg string }
+
+func (h *hungErr) Error() string { return h.msg }
+
 // settle turns a hang into a violation (a goroutine is stuck inside go9p) or
 // into an inconclusive run (nil).
 func settle(err error) error {
@@ -101,7 +108,7 @@ func settle(err error) error {
 		return err
 	}
 	if h.blocked != "" {
-		return fmt.Errorf("%s; goroutines blocked inside go9p:\n%s", h.msg, h.blocked)
+		return &hungErr{fmt.Sprintf("%s; goroutines blocked inside go9p:\n%s", h.msg, h.blocked)}
 	}
 	hx.Inconclusive(h.msg)
 	return nil
@@ -273,10 +280,25 @@ func run(c *Case) error {
 			cuts = append(cuts, x)
 		}
 	}
-	if cut > 0 {
+	joined := isFault && c.Joined
+	if cut > 0 && !joined {
 		if err := p.Write(S[:cut], cuts); err != nil {
 			return fmt.Errorf("peer write: %v", err)
 		}
+	}
+	// inject writes a fault frame: by itself, or (joined) in the same Write as
+	// the delivered replies
+	inject := func(fb []byte, fcuts []int) {
+		if !joined {
+			_ = p.Write(fb, fcuts)
+			return
+		}
+		all := append(append([]byte(nil), S[:cut]...), fb...)
+		jc := append([]int(nil), cuts...)
+		for _, x := range fcuts {
+			jc = append(jc, cut+x)
+		}
+		_ = p.Write(all, jc)
 	}
 	// a late caller that enters Rpc while the failure is in progress
 	var late *result
@@ -348,19 +370,19 @@ func run(c *Case) error {
 		clnt.Unmount()
 	case "size0", "size1", "size2", "size3", "size4", "size5", "size6":
 		sz := uint32(c.Fail[4] - '0')
-		_ = p.Write(append(hdr(sz, ref9p.Rclunk, 1), 0, 0, 0, 0), nil)
+		inject(append(hdr(sz, ref9p.Rclunk, 1), 0, 0, 0, 0), nil)
 	case "oversize-hdr":
-		_ = p.Write(hdr(8*c.Msize+1, ref9p.Rread, 1), nil)
+		inject(hdr(8*c.Msize+1, ref9p.Rread, 1), nil)
 	case "oversize-data":
-		_ = p.Write(append(hdr(8*c.Msize+1, ref9p.Rread, 1), make([]byte, 8*c.Msize+64)...), []int{7, 100, int(c.Msize), int(4 * c.Msize)})
+		inject(append(hdr(8*c.Msize+1, ref9p.Rread, 1), make([]byte, 8*c.Msize+64)...), []int{7, 100, int(c.Msize), int(4 * c.Msize)})
 	case "big31":
-		_ = p.Write(append(hdr(1<<31, ref9p.Rread, 1), make([]byte, 64)...), nil)
+		inject(append(hdr(1<<31, ref9p.Rread, 1), make([]byte, 64)...), nil)
 	case "big32":
-		_ = p.Write(append(hdr(0xFFFFFFFF, ref9p.Rread, 1), make([]byte, 64)...), nil)
+		inject(append(hdr(0xFFFFFFFF, ref9p.Rread, 1), make([]byte, 64)...), nil)
 	case "badtype":
-		_ = p.Write(hdr(7, 99, 1), nil)
+		inject(hdr(7, 99, 1), nil)
 	case "unknowntag":
-		_ = p.Write(p.Encode(&ref9p.Msg{Type: ref9p.Rclunk, Tag: 0x7777}), nil)
+		inject(p.Encode(&ref9p.Msg{Type: ref9p.Rclunk, Tag: 0x7777}), nil)
 	case "duptag":
 		// a second reply for a call that was already answered (or, with none answered, an unknown tag)
 		var m *ref9p.Msg
@@ -374,7 +396,7 @@ func run(c *Case) error {
 		if m == nil {
 			m = &ref9p.Msg{Type: ref9p.Rclunk, Tag: 0x7776}
 		}
-		_ = p.Write(p.Encode(m), nil)
+		inject(p.Encode(m), nil)
 	default:
 		return fmt.Errorf("harness: fail kind %q", c.Fail)
 	}
@@ -553,16 +575,21 @@ func TestEnumFaultFrames(t *testing.T) {
 					if before == 1 && ncalls > 0 {
 						cut = 100 // rounded down to a frame boundary: at least the first reply
 					}
-					c := &Case{Dotu: dotu, Msize: 512, Prelude: idx % 2, Calls: calls, Order: order, Cut: cut, Fail: fk, After: 2}
-					if err := execute("faults", c); err != nil {
-						hx.Violation("faults", c, err.Error())
-						t.Fatalf("%v", err)
+					for _, joined := range []bool{false, true} {
+						if joined && cut == 0 {
+							continue
+						}
+						c := &Case{Dotu: dotu, Msize: 512, Prelude: idx % 2, Calls: calls, Order: order, Cut: cut, Fail: fk, After: 2, Joined: joined}
+						if err := execute("faults", c); err != nil {
+							hx.Violation("faults", c, err.Error())
+							t.Fatalf("%v", err)
+						}
 					}
 				}
 			}
 		}
 	}
-	hx.Exhaustive("fault frames {size 0..6, oversize header only / with data, 2^31, 2^32-1, undefined type, unknown tag, reply for a completed tag} x 0..3 outstanding calls x before/after a delivered reply x 2 dialects")
+	hx.Exhaustive("fault frames {size 0..6, oversize header only / with data, 2^31, 2^32-1, undefined type, unknown tag, reply for a completed tag} x 0..3 outstanding calls x before / after a delivered reply (in a Read of its own, or in the same Read as the fault frame) x 2 dialects")
 }
 
 var callerPts = []string{"rpcnb.enqueued", "rpcnb.sent"}
@@ -633,6 +660,15 @@ func TestEnumBlockedWriter(t *testing.T) {
 }
 
 func TestPropSessions(t *testing.T) {
+	var hung error
+	// (in a sub-test: the parent is failed below, after a hang has been recorded with its case)
+	t.Run("draw", func(t *testing.T) { sessionsDraw(t, &hung) })
+	if hung != nil {
+		t.Fatalf("%v", hung)
+	}
+}
+
+func sessionsDraw(t *testing.T, hung *error) {
 	kinds := []string{"stat", "read", "write", "open"}
 	hx.Check(t, "sessions", hx.N(300, 3000), func(t *rapid.T) {
 		c := &Case{Dotu: rapid.Bool().Draw(t, "dotu"), Msize: rapid.SampledFrom([]uint32{256, 1024, 8192}).Draw(t, "msize"), Prelude: rapid.IntRange(0, 4).Draw(t, "prelude")}
@@ -645,10 +681,19 @@ func TestPropSessions(t *testing.T) {
 		c.Chunk = rapid.SampledFrom([]int{0, 1, 3, 16}).Draw(t, "chunk")
 		c.Fail = rapid.SampledFrom(append([]string{"eof", "eof", "err", "err", "unmount", "unmount"}, faults...)).Draw(t, "fail")
 		c.After = rapid.SampledFrom([]int{1, 1, 2, 20}).Draw(t, "after")
+		c.Joined = rapid.Bool().Draw(t, "joined")
 		if rapid.IntRange(0, 5).Draw(t, "blockedwriter") == 0 {
 			c.Late, c.WBlock = true, true
 		}
+		if *hung != nil {
+			return
+		}
 		if err := execute("sessions", c); err != nil {
+			if _, ok := err.(*hungErr); ok {
+				*hung = err
+				hx.Violation("sessions", c, err.Error())
+				return
+			}
 			hx.Failf(t, "sessions", c, "%v", err)
 		}
 	})
